@@ -277,6 +277,10 @@ CALLS = [
     ("unfold positional extrapolate", lambda: sorted(s.uri for s in unfold_search("h/s,a/*", False, True))),
     ("unfold Sid object", lambda: sorted(s.uri for s in unfold_search(Sid("s__c:" + _MULTI_S)))),
     ("unfold str multi s", lambda: sorted(s.uri for s in unfold_search(_MULTI_S))),
+    ("unfold plain branch s", lambda: sorted(s.uri for s in unfold_search("h/s/*"))),
+    ("unfold plain branch a", lambda: sorted(s.uri for s in unfold_search("h/a/*"))),
+    ("unfold alias", lambda: sorted(s.uri for s in unfold_search("h/a/x/v1/y"))),
+    ("unfold alias member", lambda: sorted(s.uri for s in unfold_search("h/a/x/v1/b"))),
     ("fields mutation", lambda: (Sid(_MULTI).fields.update({"p": "X"}), _desc(Sid(_MULTI)))[1]),
     ("find in list", lambda: sorted(FindInList(["h/a/x", "h/a/y", "h/s/q1"]).find("h/a/*", as_sid=False))),
     ("match", lambda: Sid("h/a/x").match("h/*/x")),
